@@ -260,6 +260,9 @@ class SAMIReader(BaseReader):
             if not result:
                 return
             tag_text = result.groups()[0]
+            # Text wrapped over several source lines keeps all its words
+            rest = re.sub("\\s*[\n\r]+\\s*$", "", tag[result.end():])
+            tag_text += re.sub("\\s*[\n\r]+\\s*", " ", rest)
             self.line.append(CaptionNode.create_text(tag_text, inherit_from))
         # convert line breaks
         elif tag.name == 'br':
